@@ -390,6 +390,12 @@ def show(t):
         return t[1]
     if k == 'phi':
         return 'tmp%d' % t[1]
+    if k == 'item':
+        return '$item' + (str(t[1]) if len(t) > 1 and t[1] else '')
+    if k == 'is':
+        return '%s is %s' % (show(t[1]), '|'.join(t[2]))
+    if k == 'choice':
+        return 'choice(%s)' % ' | '.join(show(x[0]) for x in t[1])
     if k == 'field':
         return '%s.%s' % (show(t[1]), t[2])
     if k == 'index':
